@@ -75,7 +75,7 @@ def range_invariant(ctx, prog, rule):
     return all(need.values()) and okf
 
 
-def normalize_absint(ctx, prog, rule, invariant_ok):
+def normalize_absint(ctx, prog, rule, invariant_ok, result_class=True):
     f = prog.fn(P + "normalize")
     ctx.fn_seen(f)
     nonnan_any = (floatdom.ALL - {"nan"}, False)
@@ -107,6 +107,8 @@ def normalize_absint(ctx, prog, rule, invariant_ok):
             why = "bounds are self.min / self.max of a Range, whose constructor guarantees min <= max and excludes NaN" if ordered else "bounds %s, %s have no established order" % (tree_str(lo_t), tree_str(hi_t))
         ctx.ob(rule, "clamp-precondition/%s/%s" % (short(f.path), tree_str(lo_t)), nonnan and ordered, "f64::clamp(x, %s, %s) cannot panic: bounds non-NaN=%s, ordered=%s (%s)" % (tree_str(lo_t), tree_str(hi_t), nonnan, ordered, why), where=f.file_line(b))
     ctx.floor(rule, "clamp calls in normalize", n, 1)
+    if not result_class:
+        return      # C08 only needs the clamp preconditions (a NaN result is wrong, but it is not a panic)
     # result classes
     res = None
     for bi, si, cls, payload in f.ret_assignments():
